@@ -177,6 +177,29 @@ func runC14(c *an.Ctx) {
 	// ---- R3 look-ahead reads
 	lookaheadRule(c, "R3", []string{"internal/transformations", "internal/strings"}, 40)
 
+	// the digest transformations are copies of each other: whatever package-level value one of them returns or
+	// consults belongs to its own algorithm (sha1 must not hand out the MD5 of the empty input kept for md5)
+	for _, pair := range [][2]string{{"md5T", "sha1"}, {"sha1T", "md5"}} {
+		fn := c.FnOpt("internal/transformations." + pair[0])
+		if fn == nil {
+			continue
+		}
+		bad := ""
+		for f := range c.P.Reachable(fn) {
+			if relPkg(f) != "internal/transformations" {
+				continue
+			}
+			an.Instrs(f, func(in ssa.Instruction) {
+				for _, op := range in.Operands(nil) {
+					if g, ok := (*op).(*ssa.Global); ok && g.Pkg != nil && relPkgPath(g.Pkg.Pkg.Path()) == "internal/transformations" && strings.Contains(strings.ToLower(g.Name()), pair[1]) {
+						bad = g.Name() + " in " + f.Name()
+					}
+				}
+			})
+		}
+		c.Check(bad == "", "R4", pair[0]+" uses only values of its own algorithm", fn.Pos(), "no package-level "+pair[1]+" value reachable", pair[0]+" reaches the package-level value "+bad+", which belongs to the other digest: some input (the empty one) is answered with the wrong algorithm's digest")
+	}
+
 	// ---- R5 multiMatch executor
 	for _, name := range []string{"internal/corazawaf.(*Rule).executeTransformationsMultimatch", "internal/corazawaf.(*Rule).executeTransformations", "internal/corazawaf.(*Rule).transformArg"} {
 		fn := c.Fn("R5", name)
@@ -528,3 +551,5 @@ func runningValueDiscipline(v ssa.Value, from *ssa.BasicBlock, run *ssa.Phi, mul
 	visit(v, from, 0)
 	return okAll, why
 }
+
+func relPkgPath(p string) string { return strings.TrimPrefix(strings.TrimPrefix(p, an.ModPath), "/") }
